@@ -404,7 +404,7 @@ pub fn decode_c17(b: &[u8]) -> c17::Case {
         let last = sv.last().copied().unwrap_or(1.0);
         sv.push(last * 1.01);
     }
-    c17::Case { cfg: Cfg { kind, p: vec![n], m: X(m) }, scalar, prefix, suffix: bars_from(&sv, &shape, None) }
+    c17::Case { cfg: Cfg { kind, p: vec![n], m: X(m) }, scalar, prefix, suffix: bars_from(&sv, &shape, None), gen_prefix: None }
 }
 
 // ---- C16: raw bit patterns straight from the input, so that libFuzzer's comparison tracing can feed
